@@ -338,6 +338,12 @@ where
                 "step {step} {op:?} -> {got:?}: real contents {real:?} but model {model:?}"
             );
         }
+        // the slice / array-reference comparison flavours agree with the Vec one
+        ensure!(
+            real == model.as_slice() && real == &model[..] && !(real == [model.as_slice(), model.as_slice()].concat()) || model.is_empty(),
+            format!("{name}/contents-comparison-flavours"),
+            "step {step} {op:?}: Stack == &[T] / == [T] disagree with Stack == Vec<T> on {model:?}"
+        );
         ensure!(
             real.size() == model.len(),
             format!("{name}/size"),
